@@ -89,6 +89,23 @@ func c09Operand(k int) any {
 	}
 }
 
+// c09Class: the Liquid kind of operand k — 0 number, 1 string, 2 nil, 3 boolean, 4 array, 5 map.
+func c09Class(k int) int {
+	switch k {
+	case 0, 1, 2, 3, 9, 10, 20:
+		return 0
+	case 4, 24:
+		return 1
+	case 5, 21:
+		return 2
+	case 6:
+		return 3
+	case 7, 11, 12, 13, 14, 15, 22, 23, 25:
+		return 4
+	}
+	return 5
+}
+
 type c09Flag bool
 
 type c09Text string
@@ -100,7 +117,8 @@ func (d c09Drop) ToLiquid() any { return d.v }
 // VerifC09Coherence: a != b is the negation of a == b, a > b is b < a, a <= b is (a < b or a == b),
 // a >= b is (a > b or a == b), equality is symmetric and reflexive; no evaluation fails.
 func VerifC09Coherence() {
-	a, b := c09Operand(nd.Choice(c09OpKinds)), c09Operand(nd.Choice(c09OpKinds))
+	ka, kb := nd.Choice(c09OpKinds), nd.Choice(c09OpKinds)
+	a, b := c09Operand(ka), c09Operand(kb)
 	bind := map[string]any{"a": a, "b": b}
 	eq, ne := c09Bool("a == b", bind), c09Bool("a != b", bind)
 	lt, gt := c09Bool("a < b", bind), c09Bool("a > b", bind)
@@ -112,6 +130,11 @@ func VerifC09Coherence() {
 	nd.Assert(eq == c09Bool("b == a", bind), "eq-symmetric")
 	nd.Assert(c09Bool("a == a", bind), "eq-reflexive")
 	nd.Assert(!(lt && gt), "not-both-lt-and-gt")
+	// a value of one kind never equals, and is never ordered against, a value of another: an empty
+	// ordered map is not an empty array, an empty string not nil
+	if c09Class(ka) != c09Class(kb) {
+		nd.Assert(!eq && !lt && !gt, "unlike-kinds-unequal-and-unordered")
+	}
 	nd.Reach("C09.coherence")
 }
 
